@@ -118,16 +118,21 @@ def make_problem(case, counter):
             return ((r * 3 + c) % 5 + 1) * 0.25 * (-1.0 if r == c else 1.0)
         rows = [[c for c in range(n) if (mask >> (r * n + c)) & 1] for r in range(n)]
         cf = [[coef(r, c) for c in range(n)] for r in range(n)]
-        def f(t, y):
+        # (a required extra parameter, passed through `args`, that multiplies by exactly 1.0: every call site of
+        # the right-hand side - also the ones that difference it for the Jacobian - has to hand it over)
+        def f(t, y, one):
             counter.n += 1
+            if one != 1.0:
+                counter.bad_args += 1
             out = []
             for r in range(n):
                 acc = 0.1 * (r + 1.0)
                 for c in rows[r]:
                     acc = acc + cf[r][c] * y[c]
-                out.append(acc)
+                out.append(acc * one)
             return out
         jac, const = None, None
+        args = [1.0]
     else:
         raise ValueError(pid)
     return f, jac, const, tuple(args)
@@ -263,6 +268,22 @@ def compare(case, out, res, counter):
         out.tags.append("constant-jac")
     if case["jac"] == "none" and counter.n != r["rhs_calls"]:
         out.v("rhs-calls", "the Python right-hand side was called %d times, the Rust one %d times" % (counter.n, r["rhs_calls"]))
+    # the result object answers res[key] like res.key
+    for k in ("t", "y", "status", "success", "message", "nfev", "njev", "nlu", "t_events", "y_events"):
+        try:
+            byk, bya = res[k], getattr(res, k)
+        except BaseException as e:
+            out.v("getitem", "res[%r] / res.%s raised %s: %s" % (k, k, type(e).__name__, str(e)[:200]), key=k)
+            continue
+        def same(a, b):
+            if isinstance(a, np.ndarray) or isinstance(b, np.ndarray):
+                return isinstance(a, np.ndarray) and isinstance(b, np.ndarray) and same_bits(a, b)
+            if isinstance(a, (list, tuple)) or isinstance(b, (list, tuple)):
+                return isinstance(a, (list, tuple)) and isinstance(b, (list, tuple)) and len(a) == len(b) and all(same(x, y) for x, y in zip(a, b))
+            return type(a) is type(b) and a == b
+        if not same(byk, bya):
+            out.v("getitem", "res[%r] = %r but res.%s = %r" % (k, byk, k, bya), key=k)
+    out.validated += 1
     if counter.bad_args:
         out.v("args", "extra args did not reach a callable unchanged (%d calls)" % counter.bad_args)
     if case["args"]:
